@@ -131,6 +131,25 @@ def run_case(kind, q):
                         msgs.append(f"shape {shape} shift {shift.tolist()} upsample={us} ({layout} layout, entry {row} of the "
                                     f"call): refined {out_r[row].tolist()} true {true.tolist()} error {err:.3f} > {1.0 / us + 0.03:.3f}")
                         break
+        if q.get("starts"):
+            # the same through the crop-based pipeline: several start positions in one call, fewer crop buffers than starts
+            starts = np.asarray(q["starts"], dtype=np.int64)
+            fpos = (frame - frame.min()).astype(np.float32)
+            for us in q["upsample"][:2]:
+                try:
+                    outs = impl.run_fast(fpos, pattern, starts, b=q["b"], upsample=us)
+                except Exception as e:
+                    msgs.append(f"process_frame_fast(upsample={us}) raised {type(e).__name__}: {e}")
+                    continue
+                ref = np.asarray(outs[1], dtype=np.float64)
+                one = np.asarray(impl.run_fast(fpos, pattern, starts[:1], b=1, upsample=us)[1], dtype=np.float64)[0]
+                # every start sees the same disk: all refined positions agree with the single-start result to a grid step
+                err = np.abs(ref - one).max(axis=1)
+                if err.max() > 1.0 / us + 1e-3:
+                    i = int(np.argmax(err))
+                    msgs.append(f"process_frame_fast(upsample={us}, {q['b']} buffers for {len(starts)} starts): start "
+                                f"{starts[i].tolist()} refined {ref[i].tolist()}, the first start alone gives {one.tolist()} "
+                                f"(true {true.tolist()})")
     return msgs[:6]
 
 
@@ -166,5 +185,9 @@ def search(ctx, boost=1, focus=()):
         q = {"seed": 0, "shape": shape, "radius": float(rng.integers(6, 14)),
              "shift": [float(np.round(rng.uniform(-10, 10), 2)), float(np.round(rng.uniform(-10, 10), 2))],
              "upsample": [int(v) for v in rng.permutation([int(rng.integers(2, 51)), int(rng.integers(2, 51)), 10, 25])]}
+        if k % 2:
+            cen = [shape[0] // 2 + int(np.round(q["shift"][0])), shape[1] // 2 + int(np.round(q["shift"][1]))]
+            q["starts"] = [[cen[0] + int(rng.integers(-2, 3)), cen[1] + int(rng.integers(-2, 3))] for _ in range(int(rng.integers(3, 7)))]
+            q["b"] = int(rng.integers(1, 3))
         ctx.oracle_case("bandlimited", q, run_case("bandlimited", q))
         ctx.count("bandlimited")
